@@ -3,7 +3,7 @@
 // This source code is licensed under the MIT license found in the
 // LICENSE file in the root directory of this source tree.
 
-use alloc::vec::Vec;
+use alloc::{string::ToString, vec::Vec};
 
 use crypto::{BatchMerkleProof, ElementHasher, Hasher};
 use math::FieldElement;
@@ -83,10 +83,16 @@ impl Queries {
     /// Convert internally stored bytes into a set of query values and the corresponding Merkle
     /// authentication paths.
     ///
+    /// # Errors
+    /// Returns an error if:
+    /// * `num_queries` is zero.
+    /// * The stored bytes do not consist of `num_queries` rows of `values_per_query` elements each.
+    /// * A batch Merkle proof for a tree over `domain_size` leaves could not be parsed from the
+    ///   stored bytes, or bytes are left over.
+    ///
     /// # Panics
     /// Panics if:
     /// * `domain_size` is not a power of two.
-    /// * `num_queries` is zero.
     /// * `values_per_query` is zero.
     pub fn parse<H, E>(
         self,
@@ -99,8 +105,15 @@ impl Queries {
         H: ElementHasher<BaseField = E::BaseField>,
     {
         assert!(domain_size.is_power_of_two(), "domain size must be a power of two");
-        assert!(num_queries > 0, "there must be at least one query");
         assert!(values_per_query > 0, "a query must contain at least one value");
+
+        // the number of queries is read from the proof (it is the number of unique query positions
+        // claimed by the prover), so an unacceptable value is an error, not a bug in the caller
+        if num_queries == 0 {
+            return Err(DeserializationError::InvalidValue(
+                "there must be at least one query".to_string(),
+            ));
+        }
 
         // make sure we have enough bytes to read the expected number of queries
         let num_query_bytes = E::ELEMENT_BYTES * values_per_query;
